@@ -386,86 +386,275 @@ fn gen_operand(r: &mut Rng, i: u32, n: u32, nfields: u32, boolish: bool, malform
     }
 }
 
-fn gen_like_pattern(r: &mut Rng) -> Vec<char> {
-    let mut p = Vec::new();
-    let n = 1 + r.below(5);
-    for _ in 0..n {
-        match r.below(12) {
-            0 | 1 => p.push('%'),
-            2 => p.push('_'),
-            3 | 4 => {
-                p.push('[');
-                if r.chance(1, 3) { p.push('^'); }
-                let k = 1 + r.below(3);
-                for _ in 0..k {
-                    if r.chance(1, 3) {
-                        let lo = *r.pick(&['a', 'A', '1']);
-                        p.push(lo); p.push('-'); p.push((lo as u8 + 1 + r.below(3) as u8) as char);
-                    } else { p.push(*r.pick(LIKE_ALPHA)); }
-                }
-                p.push(']');
+// ---- LIKE patterns: an AST printed in the canonical concrete syntax (mirrors Like.v like_print) ----
+#[derive(Clone, Debug)]
+enum LItem { Ch(char), One, Many, Set(bool, Vec<(char, char)>) }
+
+const PAT_CHARS: &[char] = &['a', 'b', 'c', 'A', 'x', '1', '2', ' ', 'a', 'b', '%', '_', '[', ']', '\\', '^', '-', '$', '(', ')', '.', '+',
+    '*', '?', '|', '{', '}', '&', '~', '\n', 'é', '漢', '#'];
+
+fn print_like(p: &[LItem]) -> Vec<char> {
+    let mut o = Vec::new();
+    let member = |o: &mut Vec<char>, c: char| { if matches!(c, '\\' | ']' | '^' | '-') { o.push('\\'); } o.push(c); };
+    for it in p {
+        match it {
+            LItem::Ch(c) => { if matches!(c, '\\' | '%' | '_' | '[' | ']') { o.push('\\'); } o.push(*c); }
+            LItem::One => o.push('_'),
+            LItem::Many => o.push('%'),
+            LItem::Set(neg, rs) => {
+                o.push('[');
+                if *neg { o.push('^'); }
+                for (lo, hi) in rs { member(&mut o, *lo); if lo != hi { o.push('-'); member(&mut o, *hi); } }
+                o.push(']');
             }
-            5 => { p.push('\\'); p.push(*r.pick(&['%', '_', '[', ']', '\\'])); }
-            6 => p.push(*r.pick(&['$', '^', '(', ')', '.', '+', '*', '?'])),
-            _ => p.push(*r.pick(LIKE_ALPHA)),
         }
     }
-    p
+    o
+}
+
+fn gen_like_ast(r: &mut Rng, allow_one: bool) -> Vec<LItem> {
+    let n = r.below(6);
+    (0..n).map(|_| match r.below(12) {
+        0 | 1 | 2 => LItem::Many,
+        3 => if allow_one { LItem::One } else { LItem::Many },
+        4 | 5 => {
+            let k = 1 + r.below(3);
+            LItem::Set(r.chance(1, 3), (0..k).map(|_| {
+                if r.chance(1, 2) {
+                    let lo = *r.pick(&['a', 'A', '1', ' ', '*']);
+                    (lo, char::from_u32(lo as u32 + r.below(4) as u32).unwrap())
+                } else { let c = *r.pick(PAT_CHARS); (c, c) }
+            }).collect())
+        }
+        6 => LItem::Ch(*r.pick(PAT_CHARS)),
+        _ => LItem::Ch(*r.pick(LIKE_ALPHA)),
+    }).collect()
+}
+
+/// a string that matches the pattern (mostly), then perhaps damaged
+fn gen_like_subject(r: &mut Rng, p: &[LItem]) -> Vec<char> {
+    let mut o = Vec::new();
+    for it in p {
+        match it {
+            LItem::Ch(c) => o.push(*c),
+            LItem::One => o.push(*r.pick(PAT_CHARS)),
+            LItem::Many => { for _ in 0..r.below(3) { o.push(*r.pick(PAT_CHARS)); } }
+            LItem::Set(neg, rs) => {
+                if *neg { o.push(*r.pick(LIKE_ALPHA)); }
+                else { let (lo, hi) = *r.pick(rs); o.push(char::from_u32(lo as u32 + r.below((hi as u64 - lo as u64) + 1) as u32).unwrap_or(lo)); }
+            }
+        }
+    }
+    match r.below(8) {
+        0 => { if !o.is_empty() { let i = r.below(o.len() as u64) as usize; o[i] = *r.pick(PAT_CHARS); } }
+        1 => { if !o.is_empty() { let i = r.below(o.len() as u64) as usize; o.remove(i); } }
+        2 => { let i = r.below(o.len() as u64 + 1) as usize; o.insert(i, *r.pick(PAT_CHARS)); }
+        _ => {}
+    }
+    o
+}
+
+/// raw pattern text over an alphabet of everything that means something to LIKE or to a regex
+fn gen_like_raw(r: &mut Rng) -> Vec<char> {
+    let n = r.below(8);
+    (0..n).map(|_| *r.pick(PAT_CHARS)).collect()
+}
+
+fn gen_like_case(r: &mut Rng) -> Case {
+    match r.below(10) {
+        0..=5 => { let one = r.chance(1, 6); let p = gen_like_ast(r, one); let s = gen_like_subject(r, &p); Case::Like { pat: print_like(&p), s } }
+        6 | 7 => { let pat = gen_like_raw(r); let s = if r.chance(1, 2) { gen_like_raw(r) } else { gen_plain_string(r) }; Case::Like { pat, s } }
+        _ => Case::LikeText { pat: gen_like_raw(r) },
+    }
+}
+
+// ---- content filters -------------------------------------------------------------------------------
+/// a pair of values an ordering operator can say something about
+fn gen_comparable(r: &mut Rng) -> (Val, Val) {
+    match r.below(10) {
+        0 | 1 => { let t = r.below(8) as u8; (Val::Int(t, gen_int(r, t)), Val::Int(t, gen_int(r, t))) }
+        2 | 3 => { let (t, u) = (r.below(8) as u8, r.below(8) as u8); (Val::Int(t, gen_int(r, t)), Val::Int(u, gen_int(r, u))) }
+        4 => { let t = r.below(8) as u8; let x = gen_int(r, t); (Val::Int(t, x), Val::Str(x.to_string().chars().collect())) }
+        5 => { let x = r.range(-100, 100); (Val::Double((x as f64).to_bits()), Val::Int(4, x as i128 + r.range(-1, 1) as i128)) }
+        6 => (Val::Double(gen_double_bits(r)), Val::Float(gen_float_bits(r))),
+        7 => { let a = gen_plain_string(r); let b = if r.chance(1, 2) { a.clone() } else { gen_plain_string(r) }; (Val::Str(a), Val::Str(b)) }
+        8 => { let a = gen_val(r); let b = if r.chance(1, 2) { a.clone() } else { gen_val(r) }; (a, b) }
+        _ => (gen_val(r), gen_val(r)),
+    }
 }
 
 fn gen_filter(r: &mut Rng, malformed: bool) -> Case {
     let nfields = r.below(4) as u32;
-    let fields: Vec<Val> = (0..nfields).map(|_| gen_val(r)).collect();
+    let mut fields: Vec<Val> = (0..nfields).map(|_| gen_val(r)).collect();
     if malformed && r.chance(1, 25) { return Case::Filter { fields, els: None }; }
-    let n = if malformed && r.chance(1, 25) { 0 } else { 1 + r.below(5) as u32 };
+    let n = if malformed && r.chance(1, 25) { 0 } else { 1 + r.below(6) as u32 };
     let mut els = Vec::new();
     for i in 0..n {
         let op = if malformed && r.chance(1, 12) { *r.pick(&[12u32, 13, 14, 15]) }
-                 else { *r.pick(&[0u32, 0, 1, 2, 3, 4, 5, 6, 7, 7, 8, 9, 10, 10, 11, 11, 16, 17]) };
+                 else if i + 1 < n && r.chance(1, 2) { *r.pick(&[7u32, 10, 11, 10, 11]) }
+                 else { *r.pick(&[0u32, 0, 1, 2, 3, 4, 5, 6, 7, 8, 9, 10, 11, 16, 17]) };
         if malformed && r.chance(1, 20) { els.push(Elem { op, ops: None }); continue; }
         let mut cnt = min_operands(op);
         if op == 9 { cnt += r.below(3) as usize; }
         if malformed && r.chance(1, 4) { cnt = r.below(5) as usize; }
         let boolish = matches!(op, 7 | 10 | 11);
         let mut ops: Vec<Opnd> = Vec::new();
-        if op == 6 && !(malformed && r.chance(1, 3)) && cnt >= 2 {
-            ops.push(if r.chance(1, 6) && nfields > 0 { Opnd::Attr(r.below(nfields as u64) as u32) } else { Opnd::Lit(Val::Str(gen_plain_string(r))) });
-            ops.push(Opnd::Lit(Val::Str(gen_like_pattern(r))));
-            for _ in 2..cnt { ops.push(gen_operand(r, i, n, nfields, false, malformed)); }
-        } else {
-            for _ in 0..cnt { ops.push(gen_operand(r, i, n, nfields, boolish, malformed)); }
+        let structured = !(malformed && r.chance(1, 3));
+        if op == 6 && structured && cnt >= 2 {
+            // LIKE: subject (literal or event field), canonical pattern
+            let one = r.chance(1, 8);
+            let p = gen_like_ast(r, one);
+            let subj = gen_like_subject(r, &p);
+            if r.chance(1, 4) && (fields.len() as u32) < N_SLOTS {
+                fields.push(Val::Str(subj)); ops.push(Opnd::Attr(fields.len() as u32 - 1));
+            } else { ops.push(Opnd::Lit(Val::Str(subj))); }
+            ops.push(Opnd::Lit(Val::Str(if r.chance(1, 10) { gen_like_raw(r) } else { print_like(&p) })));
+        } else if matches!(op, 0 | 2 | 3 | 4 | 5 | 16 | 17) && structured && cnt >= 2 && r.chance(2, 3) {
+            let (a, b) = gen_comparable(r);
+            if r.chance(1, 5) && (fields.len() as u32) < N_SLOTS { fields.push(a); ops.push(Opnd::Attr(fields.len() as u32 - 1)); }
+            else { ops.push(Opnd::Lit(a)); }
+            ops.push(Opnd::Lit(b));
+        } else if matches!(op, 8 | 9) && structured && cnt >= 2 && r.chance(2, 3) {
+            // Between / InList around a pivot
+            let t = r.below(8) as u8;
+            let x = gen_int(r, t);
+            ops.push(Opnd::Lit(Val::Int(t, x)));
+            for _ in 1..cnt {
+                let u = if r.chance(2, 3) { t } else { r.below(8) as u8 };
+                let (lo, hi) = ity_range(u);
+                let y = (x + r.range(-2, 2) as i128).clamp(lo, hi);
+                ops.push(Opnd::Lit(if r.chance(1, 8) { gen_val(r) } else { Val::Int(u, y) }));
+            }
         }
+        while ops.len() < cnt { ops.push(gen_operand(r, i, n, fields.len() as u32, boolish, malformed)); }
+        ops.truncate(cnt);
         els.push(Elem { op, ops: Some(ops) });
     }
     Case::Filter { fields, els: Some(els) }
 }
 
+fn tri_vals() -> Vec<Val> { vec![Val::Bool(true), Val::Bool(false), Val::Empty] }
+
+/// one representative value (or a few) of every modelled type
+fn type_reps() -> Vec<Val> {
+    let mut v = vec![Val::Empty, Val::Bool(true), Val::Bool(false)];
+    for t in 0..8u8 { let (lo, hi) = ity_range(t); v.push(Val::Int(t, 1)); v.push(Val::Int(t, lo)); v.push(Val::Int(t, hi)); }
+    v.extend([Val::Float(1.0f32.to_bits()), Val::Float(f32::NAN.to_bits()), Val::Double(1.0f64.to_bits()), Val::Double((-1.0f64).to_bits()),
+              Val::Double(f64::NAN.to_bits()), Val::Str(s("1")), Val::Str(s("-1")), Val::Str(s("true")), Val::Str(s("x")), Val::Str(s("")),
+              Val::Status(0), Val::Status(1), Val::Status(0x8000_0000), Val::Status(0x0001_0000),
+              Val::Opaque(0, 1), Val::Opaque(1, 1), Val::Opaque(2, 1)]);
+    v
+}
+
 pub struct P;
 impl Property for P {
     type Case = Case;
-    fn fixed(_tier: &str) -> Vec<Case> {
+    fn fixed(tier: &str) -> Vec<Case> {
         let lit = |v: Val| Opnd::Lit(v);
         let i32v = |x: i128| Val::Int(4, x);
+        let st = |x: &str| Val::Str(s(x));
         let el = |op: u32, ops: Vec<Opnd>| Elem { op, ops: Some(ops) };
         let f = |els: Vec<Elem>| Case::Filter { fields: vec![], els: Some(els) };
-        vec![
-            f(vec![el(0, vec![lit(i32v(550)), lit(Val::Str(s("550")))])]),
+        let ff = |fields: Vec<Val>, els: Vec<Elem>| Case::Filter { fields, els: Some(els) };
+        let like = |p: &str, t: &str| Case::Like { pat: s(p), s: s(t) };
+        let mut v = vec![
+            // --- the witnesses of the defects that were fixed (Proofs.v w_*) ---
+            f(vec![el(0, vec![lit(i32v(1))])]),                                   // operands[1]
+            f(vec![el(8, vec![lit(i32v(1)), lit(i32v(0))])]),                     // operands[2]
+            f(vec![el(7, vec![Opnd::Elem(7)])]),                                  // elements[7]
+            f(vec![el(1, vec![Opnd::Attribute])]),                                // AttributeOperand
+            f(vec![el(0, vec![lit(i32v(1)), Opnd::Attr(0)])]),                    // number == null field
+            f(vec![el(0, vec![lit(i32v(1)), lit(st("abc"))])]),                   // number == "abc"
+            f(vec![el(16, vec![lit(Val::Int(7, 5)), lit(i32v(-1))])]),            // UInt64 & Int32(-1)
+            f(vec![el(2, vec![lit(Val::Double(f64::NAN.to_bits())), lit(Val::Double(1.0f64.to_bits()))])]), // NaN > 1
+            f(vec![el(0, vec![lit(st("abc")), lit(st("abc"))])]),                 // "abc" == "abc"
+            like("\\\\%", "\\abc"), like("%", "a\nb"),
+            like("a|b", "a"), like("a{2}", "aa"), like("\\d", "5"), like("[a&&b]", "a"), like("[[a]]", "a"),
+            // --- known finding 1 ---
+            like("a_c", "abc"), like("a_c", "ac"), like("_", "xyz"), like("%_", ""),
+            ff(vec![st("abc")], vec![el(6, vec![Opnd::Attr(0), lit(st("a_c"))])]),
+            // --- the clauses of the repository's own tests ---
             f(vec![el(1, vec![lit(Val::Empty)])]),
-            f(vec![el(0, vec![lit(i32v(1))])]),
-            f(vec![el(0, vec![lit(i32v(1)), Opnd::Elem(7)])]),
-            f(vec![el(0, vec![lit(i32v(1)), Opnd::Attribute])]),
-            f(vec![el(0, vec![lit(i32v(1)), lit(Val::Str(s("abc")))])]),
-            f(vec![el(0, vec![lit(Val::Str(s("abc"))), lit(Val::Str(s("abc")))])]),
-            f(vec![el(2, vec![lit(Val::Double(f64::NAN.to_bits())), lit(Val::Double(1.0f64.to_bits()))])]),
-            Case::Like { pat: s("a_c"), s: s("abc") },
-            Case::Like { pat: s("a%"), s: s("abc") },
-        ]
+            f(vec![el(10, vec![Opnd::Elem(1), Opnd::Elem(2)]), el(0, vec![lit(i32v(550)), lit(st("550"))]),
+                   el(0, vec![lit(Val::Double(10.5f64.to_bits())), lit(st("10.5"))])]),
+            f(vec![el(6, vec![lit(st("Hello world")), lit(st("[Hh]ello w%"))])]),
+            f(vec![el(7, vec![Opnd::Elem(1)]), el(0, vec![lit(i32v(550)), lit(i32v(551))])]),
+            ff(vec![i32v(100)], vec![el(0, vec![Opnd::Attr(0), lit(i32v(100))])]),
+            ff(vec![i32v(100)], vec![el(0, vec![Opnd::Attr(3), lit(i32v(100))])]),
+            like("Th[ia][ts]%", "That is fine"), like("Th[ia][ts]%", "Then at any"), like("%en%", "content"),
+            like("abc[13-68]", "abc4"), like("abc[13-68]", "abc7"), like("ABC[^13-5]", "ABC2"), like("ABC[^13-5]", "ABC4"),
+            // --- malformed clauses that creation accepts ---
+            Case::Filter { fields: vec![], els: None },
+            f(vec![]),
+            f(vec![Elem { op: 0, ops: None }]),
+            f(vec![el(0, vec![])]),
+            f(vec![el(7, vec![Opnd::Elem(0)])]),                                                    // itself
+            f(vec![el(7, vec![Opnd::Elem(1)]), el(7, vec![Opnd::Elem(0)])]),                        // a loop
+            f(vec![el(10, vec![Opnd::Elem(1), Opnd::Elem(1)]), el(7, vec![lit(Val::Bool(false))])]), // shared, no loop
+            f(vec![el(7, vec![Opnd::Elem(u32::MAX)])]),
+            f(vec![el(1, vec![Opnd::Bad])]),
+            f(vec![el(0, vec![lit(i32v(1)), Opnd::Bad])]),
+            f(vec![el(0, vec![Opnd::Elem(9)])]),                                   // count mismatch is seen before the bad index
+            f(vec![el(10, vec![Opnd::Elem(9)])]),                                  // here the bad index is seen first
+            f(vec![el(9, vec![lit(i32v(1))])]),                                    // InList with nothing to look in
+            f(vec![el(9, vec![lit(i32v(1)), Opnd::Elem(9), Opnd::Attribute, lit(i32v(1))])]),       // errors inside InList are swallowed
+            f(vec![el(13, vec![lit(i32v(1))])]), f(vec![el(14, vec![lit(i32v(1))])]), f(vec![el(15, vec![lit(i32v(1))])]),
+            f(vec![el(12, vec![lit(i32v(1)), lit(i32v(1))])]), f(vec![el(12, vec![lit(i32v(1))])]),
+            f(vec![el(0, vec![lit(i32v(1)), lit(i32v(1)), lit(i32v(2))])]),        // an extra operand is ignored by the code
+            // --- conversions at their edges ---
+            f(vec![el(0, vec![lit(Val::Int(7, u64::MAX as i128)), lit(Val::Int(6, -1))])]),
+            f(vec![el(0, vec![lit(Val::Int(6, i64::MAX as i128)), lit(Val::Int(7, i64::MAX as i128))])]),
+            f(vec![el(0, vec![lit(Val::Int(6, i64::MAX as i128)), lit(Val::Double((i64::MAX as f64).to_bits()))])]),
+            f(vec![el(0, vec![lit(Val::Int(6, (1i128 << 53) + 1)), lit(Val::Double(((1u64 << 53) as f64).to_bits()))])]),
+            f(vec![el(0, vec![lit(Val::Float(0.1f32.to_bits())), lit(Val::Double(0.1f64.to_bits()))])]),
+            f(vec![el(0, vec![lit(Val::Float(0.5f32.to_bits())), lit(Val::Double(0.5f64.to_bits()))])]),
+            f(vec![el(0, vec![lit(Val::Double(0.0f64.to_bits())), lit(Val::Double((-0.0f64).to_bits()))])]),
+            f(vec![el(0, vec![lit(Val::Int(1, 200)), lit(Val::Int(0, -56))])]),
+            f(vec![el(0, vec![lit(Val::Int(3, 0x8000)), lit(Val::Status(0x8000_0000))])]),
+            f(vec![el(0, vec![lit(Val::Status(0x8000_0000)), lit(Val::Int(4, i32::MIN as i128))])]),
+            f(vec![el(0, vec![lit(Val::Bool(true)), lit(st("1"))])]),
+            f(vec![el(0, vec![lit(Val::Bool(true)), lit(Val::Int(1, 1))])]),
+            f(vec![el(0, vec![lit(Val::Double(f64::INFINITY.to_bits())), lit(st("1e400"))])]),
+            f(vec![el(0, vec![lit(Val::Double(5e-324f64.to_bits())), lit(st("4.9e-324"))])]),
+            f(vec![el(0, vec![lit(Val::Float(16777216f32.to_bits())), lit(st("16777217"))])]),
+            f(vec![el(0, vec![lit(Val::Opaque(1, 5)), lit(Val::Opaque(1, 5))])]),
+            f(vec![el(0, vec![lit(Val::Opaque(0, 5)), lit(st("abc"))])]),
+            f(vec![el(17, vec![lit(Val::Int(3, 0xff00)), lit(Val::Int(3, 0x00ff))])]),
+            f(vec![el(16, vec![lit(Val::Int(0, -1)), lit(Val::Int(4, 0x7f0f))])]),
+            f(vec![el(16, vec![lit(Val::Int(0, -1)), lit(Val::Int(3, 5))])]),
+            // --- deep chains in a child process with a 2 MiB stack; 1000 = default max_array_length ---
+            Case::Deep { n: 1, stack_kib: 2048 }, Case::Deep { n: 2, stack_kib: 2048 }, Case::Deep { n: 101, stack_kib: 2048 },
+            Case::Deep { n: 1000, stack_kib: 2048 },
+        ];
+        // --- And / Or / Not truth tables, operands as literals, as strings and through elements ---
+        for a in tri_vals() {
+            v.push(f(vec![el(7, vec![lit(a.clone())])]));
+            for b in tri_vals() {
+                v.push(f(vec![el(10, vec![lit(a.clone()), lit(b.clone())])]));
+                v.push(f(vec![el(11, vec![lit(a.clone()), lit(b.clone())])]));
+                v.push(f(vec![el(10, vec![Opnd::Elem(1), Opnd::Elem(2)]), el(7, vec![lit(a.clone())]), el(7, vec![lit(b.clone())])]));
+            }
+        }
+        for p in ["[a-c-e]", "[a-]", "[-a]", "[a--]", "[^^]", "[^]", "[&&]", "[]", "[]a]", "[[:alpha:]]", "a\\\\", "\\a", "a\\", "a_?", "___", "%_",
+                  "[+--]", "{}|", "[\\-a]", "x[a-a]", "[]]", "[z-a]", "[a", "]", "^$", "[$().+*?]", "\\[\\]", "", "%%", "[\\\\]", "[a\\]", "\\"] {
+            v.push(Case::LikeText { pat: s(p) });
+        }
+        if tier == "thorough" {
+            // every pair of type representatives under Equals, GreaterThan and BitwiseOr
+            let reps = type_reps();
+            for a in &reps { for b in &reps {
+                v.push(f(vec![el(0, vec![lit(a.clone()), lit(b.clone())])]));
+                v.push(f(vec![el(2, vec![lit(a.clone()), lit(b.clone())])]));
+                v.push(f(vec![el(17, vec![lit(a.clone()), lit(b.clone())])]));
+            } }
+        }
+        v
     }
     fn gen(r: &mut Rng) -> Case {
         match r.below(10) {
-            0..=5 => gen_filter(r, false),
-            6 | 7 => gen_filter(r, true),
-            _ => Case::Like { pat: gen_like_pattern(r), s: gen_plain_string(r) },
+            0..=4 => gen_filter(r, false),
+            5 | 6 => gen_filter(r, true),
+            _ => gen_like_case(r),
         }
     }
     fn exec(c: &Case) -> Out {
@@ -473,7 +662,19 @@ impl Property for P {
             Case::Filter { fields, els } => {
                 let out = eval_filter(fields, els);
                 let term = format!("(CFilter {} {})", coq_list(fields, coq_val), coq_opt(els, |e| coq_list(e, coq_elem)));
-                Out { tag: "filter".into(), term, out }
+                let tag = match els {
+                    None => "trivial-no-elements".to_string(),
+                    Some(e) if e.is_empty() => "trivial-no-elements".to_string(),
+                    Some(e) => {
+                        let bad = e.iter().enumerate().any(|(i, x)| match &x.ops {
+                            None => true,
+                            Some(o) => o.len() < min_operands(x.op) || x.op >= 12 && x.op <= 15
+                                || o.iter().any(|y| match y { Opnd::Elem(j) => *j as usize >= e.len() || *j as usize <= i, Opnd::Attribute | Opnd::Bad => true, _ => false }),
+                        });
+                        format!("{}-{}-{}el", if bad { "malformed" } else { "wellformed" }, OPS[e[0].op as usize], e.len().min(4))
+                    }
+                };
+                Out { tag, term, out }
             }
             Case::Like { pat, s } => {
                 let p: String = pat.iter().collect();
@@ -483,7 +684,7 @@ impl Property for P {
                     Ok(None) => vec![0],
                     Err(_) => vec![-2],
                 };
-                Out { tag: "like".into(), term: format!("(CLike {} {})", chars(pat), chars(s)), out }
+                Out { tag: if pat.contains(&'_') { "like-underscore".into() } else { "like".into() }, term: format!("(CLike {} {})", chars(pat), chars(s)), out }
             }
             Case::LikeText { pat } => {
                 let p: String = pat.iter().collect();
